@@ -24,8 +24,8 @@ LEVEL_TEXT = ("Theorems in Coq (Props/C20.v): (1) for every program of lock-prot
               "calls and all schedules. Tie: `go build -race` of the scenario driver, 2..32 goroutines per row pair, fresh process per scenario.")
 LEVEL_NOTE = ("PARTIAL BY NATURE. The theorems carry the logic of sharing only: the Go scheduler, the Go memory model, preemption inside an "
               "access and the correspondence between the access table and the code are not proved. The table (coq/Conc/AccessTable.v) is written by "
-              "hand; its write sets are tied to the current source statically (Gen/ConcWriteSets.v, theorem table_covers_source_writes; Conn and handshake "
-              "code are outside that tie) and it is validated per run by the race detector on the interleavings that occur. Locks are modelled where "
+              "hand; its write sets are tied to the current source statically (Gen/ConcWriteSets.v, theorems table_covers_source_writes incl. the Conn rows and the handshake code, "
+              "source_unattributed_bounded for calls through function values / outside interfaces; reads and renegotiation are outside that tie) and it is validated per run by the race detector on the interleavings that occur. Locks are modelled where "
               "the code takes them (nested, RWMutex with shared readers); the serialisability conclusion is at region level (accesses between two "
               "synchronisation operations); Conn.Handshake and handshakeComplete() are modelled as a sync.Once; renegotiation is outside. "
               "sm4.IV (SetIV), x509.ContentEncryptionAlgorithm and CertPool construction are caller-synchronised: only concurrent reads are claimed. "
